@@ -129,6 +129,14 @@ pub fn run(env: &Env, run: &Run) -> (Stats, Coverage) {
                 }
             }
         }
+        // behind a character whose lowercase is a letter plus a mark (case mapping and
+        // normalisation both touch the pair)
+        {
+            let s = from_cps(&[0x130, c as u32]);
+            for p in Prof::ALL {
+                check_input(env, p, &s, st);
+            }
+        }
         // history within one string: the code point next to each of its 16 other-plane aliases
         for a in alias_chars(c) {
             for l in [vec![c as u32, a as u32], vec![a as u32, c as u32]] {
@@ -233,7 +241,7 @@ pub fn run(env: &Env, run: &Run) -> (Stats, Coverage) {
     st.sample(json!({"profile": "Nickname", "input": ["U+3131"], "expected": "Err: NFKC gives U+1100 (DISALLOWED old Hangul jamo), caught by re-validation"}));
     st.sample(json!({"profile": "OpaqueString", "input": ["U+0041", "U+030A"], "expected": "Ok(U+00C5); enforcing U+00C5 again returns it unchanged"}));
     let cov = Coverage {
-        rule: format!("(a) every scalar value between prefixes {{'', a, U+05D0}} and suffixes {{'', U+0308, U+0301, a}} x 4 profiles; (b) each of the {} canonically decomposable characters of UnicodeData 16.0: its full decomposition, its direct decomposition, every permutation of its combining marks, every proper prefix (+ next mark), the upper-cased variants, and all of these behind A / fullwidth A / NBSP / I-dot; (c) every string of length <= {} over 24 cased/width/compatibility symbols, pumped runs, ASCII block strings, and every scalar value next to each of its 16 other-plane aliases; oracle on each accepted result e: every code point re-classified with the profile's own class AND the reference derived property is neither DISALLOWED nor UNASSIGNED, and enforce(e) is Ok(e) or an error; non-trivial = accepted inputs whose result differs from the input", decomposable.len(), n),
+        rule: format!("(a) every scalar value between prefixes {{'', a, U+05D0}} and suffixes {{'', U+0308, U+0301, a}}, and behind U+0130, x 4 profiles; (b) each of the {} canonically decomposable characters of UnicodeData 16.0: its full decomposition, its direct decomposition, every permutation of its combining marks, every proper prefix (+ next mark), the upper-cased variants, and all of these behind A / fullwidth A / NBSP / I-dot; (c) every string of length <= {} over 24 cased/width/compatibility symbols, pumped runs, ASCII block strings, and every scalar value next to each of its 16 other-plane aliases; oracle on each accepted result e: every code point re-classified with the profile's own class AND the reference derived property is neither DISALLOWED nor UNASSIGNED, and enforce(e) is Ok(e) or an error; non-trivial = accepted inputs whose result differs from the input", decomposable.len(), n),
         alphabet: json!(sigma.iter().map(|c| format!("U+{:04X}", *c as u32)).collect::<Vec<_>>()),
         bound_completed: format!("sweep 1,112,064 x 12 contexts x 4 profiles; {} decomposable characters; tree length <= {}", decomposable.len(), n),
         exhaustive: false,
